@@ -28,7 +28,8 @@ FLAVOURS = {
 class Walker(object):
 
     def __init__(self, rng, flavour="mixed", addrs=(0,), persistent=None, keepalive=None,
-                 level=None, maxwin=16):
+                 level=None, maxwin=16, no_tick=False):
+        self.no_tick = no_tick
         self.rng = rng
         self.w8 = FLAVOURS[flavour]
         self.kinds = list(self.w8)
@@ -124,6 +125,8 @@ class Walker(object):
         for _ in range(n):
             s = self.next_step(w)
             if s is not None:
+                if self.no_tick and s[0] == "tick":
+                    s = ("adv", 1.5)
                 w.step(s)
 
 
